@@ -40,6 +40,9 @@ func (fv *funcVerifier) pureCall(call *ast.CallExpr) bool {
 			if sp := fv.prog.Specs.Funcs[FuncKey(fn)]; sp != nil && sp.Pure {
 				return true
 			}
+			if fv.prog.Specs.Funcs[FuncKey(fn)] == nil && fv.prog.autoPure(FuncKey(fn)) {
+				return true
+			}
 		}
 	}
 	return false
